@@ -4,7 +4,7 @@
    sumor to native OCaml types; andb/orb inlined).  N, positive, nat, Z stay inductive. *)
 Require Extraction.
 Require Import ExtrOcamlBasic.
-From Via Require Import M_Char M_Encode.
+From Via Require Import M_Char M_Encode M_HashMap M_Router.
 Set Extraction Optimize.
 Extraction "model.ml"
   M_Char.isupper M_Char.isalpha M_Char.isdigit M_Char.isxdigit M_Char.isblank M_Char.isspace
@@ -15,4 +15,7 @@ Extraction "model.ml"
   M_Encode.tx_response_is_valid M_Encode.response_message M_Encode.add_header
   M_Encode.mk_tx_request M_Encode.request_message M_Encode.chunk_header_string
   M_Encode.last_chunk_string M_Encode.to_header M_Encode.standard_name M_Encode.lowercase_name
-  M_Encode.content_length_line M_Encode.chunked_encoding_line.
+  M_Encode.content_length_line M_Encode.chunked_encoding_line
+  M_HashMap.hm_run M_HashMap.hm_empty_map M_HashMap.id_hash
+  M_Router.split M_Router.uri_path M_Router.get_route_parameters M_Router.handle_request
+  M_Router.build_table M_Router.dispatch.
